@@ -409,7 +409,8 @@ let handle (i : string list) (o : string list) =
                     | _ -> false) in
                 let arrived = List.length (List.sort_uniq compare (List.filter_map (fun (i, pid) -> if i = id then Some pid else None) !fdt_pkts)) in
                 lists && arrived >= npk) !finsts in
-            let recoverable = fdt_ok && ks <> [] && blocks_recoverable rs (n_of_int (int_of_string (get "par" "0"))) ks N0 got
+            (* an empty object has no source block: the premise is read as 'its (single, empty) packet arrives' *)
+            let recoverable = fdt_ok && (ks <> [] || got <> []) && blocks_recoverable rs (n_of_int (int_of_string (get "par" "0"))) ks N0 got
                               && get "bld" "S" = "S" && get "opn" "1" = "1" && get "wrf" "-" = "-" && not altered
                               (* stated premises of C02: relative order preserved, no receiver drop / cleanup in between,
                                  genuine FDT, the default (large) cache limit *)
